@@ -43,6 +43,10 @@ S1NegotiateCount(p) ==
          IF bc < 3 \/ 4 + 35 + bc # Len(p) \/ ~NbtLenIs(p, Len(p) - 4) THEN 0
          ELSE LET n == S1Dialects(p, 4 + 35, Len(p), 0) IN IF n < 1 THEN 0 ELSE n
 
+(* does the request offer the dialect string "NT LM 0.12" (02 "NT LM 0.12" 00) anywhere in its data? *)
+NTLM012 == << 2, 78, 84, 32, 76, 77, 32, 48, 46, 49, 50, 0 >>
+S1OffersNtLm(p) == \E k \in (4 + 35)..(Len(p) - 12) : SubSeq(p, k + 1, k + 12) = NTLM012
+
 (* clean SMB1 session-setup request with extended security (12 words) *)
 S1SessionSetupClean(p) ==
     /\ S1HdrOK(p) /\ Len(p) >= 4 + 32 + 1 + 24 + 2
@@ -73,7 +77,8 @@ S1ReplyFails(p, r, ndialects) ==
     \cup (IF S1Corr(r) = S1Corr(p) THEN {} ELSE { "smb1-pid-tid-uid-mid-echo" })
     \cup (IF S1BodyOK(r) THEN {} ELSE { "smb1-bytecount" })
     \cup (IF S1Cmd(p) = 114
-          THEN (IF L16(r, 4 + 33) < ndialects THEN {} ELSE { "smb1-dialect-index-offered" })
+          THEN (IF L16(r, 4 + 33) < ndialects \/ (L16(r, 4 + 33) = 65535 /\ ~S1OffersNtLm(p))   \* 0xFFFF: none of them
+                THEN {} ELSE { "smb1-dialect-index-offered" })
           ELSE (* session setup: SecurityBlobLength (word 3) fits in ByteCount *)
                (IF r[4 + 33] >= 4 /\ Len(r) >= 4 + 33 + 2 * r[4 + 33] + 2
                    /\ L16(r, 4 + 33 + 6) <= L16(r, 4 + 33 + 2 * r[4 + 33])
